@@ -87,3 +87,31 @@ where
     }
     R::from_output(acc)
 }
+
+pub fn find<I, P>(it: &mut I, mut p: P) -> Option<I::Item>
+where
+    I: Iterator,
+    P: FnMut(&I::Item) -> bool,
+{
+    while let Some(x) = it.next() {
+        if p(&x) {
+            return Some(x);
+        }
+    }
+    None
+}
+
+pub fn position<I, P>(it: &mut I, mut p: P) -> Option<usize>
+where
+    I: Iterator,
+    P: FnMut(I::Item) -> bool,
+{
+    let mut i = 0;
+    while let Some(x) = it.next() {
+        if p(x) {
+            return Some(i);
+        }
+        i += 1;
+    }
+    None
+}
